@@ -165,9 +165,22 @@ def _same_deliveries(ev_a, ev_b):
     """Did the host hand the same values to the same sites in both runs?  The probe call-backs are unordered: when
     two independent sites are evaluated in another order by XLA, the host generator's values reach other sites and
     the two runs are not the same experiment (seen once in ~8000 thorough kernel steps)."""
-    fa = [(e.tag, np.asarray(e.value).tolist(), [np.asarray(p).tolist() for p in e.params]) for e in ev_a if e.tag != TAG_U]
-    fb = [(e.tag, np.asarray(e.value).tolist(), [np.asarray(p).tolist() for p in e.params]) for e in ev_b if e.tag != TAG_U]
-    return fa == fb
+    def sig(evs):
+        vals = [(e.tag, np.asarray(e.value).tolist(), [np.asarray(p).tolist() for p in e.params]) for e in evs if e.tag != TAG_U]
+        # the flat value sequence is the same whatever the order of the calls (values are drawn in call order):
+        # the sizes of the consecutive host calls tell which site was served first
+        blocks, last = [], None
+        for e in evs:
+            if e.tag == TAG_U:
+                continue
+            c = (e.tag, getattr(e, "call", None))
+            if c != last:
+                blocks.append([e.tag, 0])
+                last = c
+            blocks[-1][1] += 1
+        return vals, blocks
+
+    return sig(ev_a) == sig(ev_b)
 
 
 def _bracket(ctx, stepper, key, host_seed, tr0, trA, log_alpha_ref, tol_w, d, kname, base_events=None):
@@ -187,6 +200,15 @@ def _bracket(ctx, stepper, key, host_seed, tr0, trA, log_alpha_ref, tol_w, d, kn
         if base_events is not None and not _same_deliveries(base_events, ev):
             ctx.count("bracket_skipped_callback_order_differs")
             return False
+        if bool(np.asarray(acc)) and not _tree_close(t, trA):
+            # equal-sized noise blocks served in another order cannot be told apart from the deliveries: repeat the
+            # run; a kernel that really proposes something else never reproduces the first run's proposal
+            for _ in range(3):
+                t2, acc2, ev2 = stepper.run(ctx, key, host_seed, float(np.float32(lo)), tr0)
+                ctx.count("bracket_repeats")
+                if not hasattr(t2, "brief") and bool(np.asarray(acc2)) and _tree_close(t2, trA):
+                    t, acc = t2, acc2
+                    break
         if bool(np.asarray(acc)) and not _tree_bit_equal(t, trA) and _tree_close(t, trA):
             # the same accepted proposal up to float32 rounding: two executions of one compiled program are not
             # promised to be bit-identical by C09 (a rejected move IS compared bitwise with the input, below)
